@@ -11,6 +11,10 @@
  * Heap Init / Destroy
  * ======================================================================== */
 
+#ifdef NANOLANG_VERIF
+void (*vm_verif_heap_cb)(int event, void *obj, uint8_t obj_type) = NULL;
+#endif
+
 void vm_heap_init(VmHeap *heap) {
     memset(heap, 0, sizeof(*heap));
     heap->intern_capacity = 256;
@@ -77,6 +81,9 @@ void vm_release(VmHeap *heap, NanoValue v) {
             VmString *s = v.as.string;
             heap->stats.freed += sizeof(VmString) + s->length + 1;
             heap->stats.num_objects--;
+#ifdef NANOLANG_VERIF
+            if (vm_verif_heap_cb) vm_verif_heap_cb(0, s, s->header.obj_type);
+#endif
             /* Remove from intern table if present */
             for (uint32_t i = 0; i < heap->intern_count; i++) {
                 if (heap->intern_table[i] == s) {
@@ -119,6 +126,9 @@ static void release_array(VmHeap *heap, VmArray *a) {
     }
     heap->stats.freed += sizeof(VmArray) + a->capacity * sizeof(NanoValue);
     heap->stats.num_objects--;
+#ifdef NANOLANG_VERIF
+    if (vm_verif_heap_cb) vm_verif_heap_cb(0, a, a->header.obj_type);
+#endif
     free(a->elements);
     free(a);
 }
@@ -138,6 +148,9 @@ static void release_struct(VmHeap *heap, VmStruct *s) {
     }
     heap->stats.freed += sizeof(VmStruct) + s->field_count * sizeof(NanoValue);
     heap->stats.num_objects--;
+#ifdef NANOLANG_VERIF
+    if (vm_verif_heap_cb) vm_verif_heap_cb(0, s, s->header.obj_type);
+#endif
     free(s->fields);
     free(s);
 }
@@ -148,6 +161,9 @@ static void release_union(VmHeap *heap, VmUnion *u) {
     }
     heap->stats.freed += sizeof(VmUnion) + u->field_count * sizeof(NanoValue);
     heap->stats.num_objects--;
+#ifdef NANOLANG_VERIF
+    if (vm_verif_heap_cb) vm_verif_heap_cb(0, u, u->header.obj_type);
+#endif
     free(u->fields);
     free(u);
 }
@@ -159,6 +175,9 @@ static void release_tuple(VmHeap *heap, VmTuple *t) {
     size_t sz = sizeof(VmTuple) + t->count * sizeof(NanoValue);
     heap->stats.freed += sz;
     heap->stats.num_objects--;
+#ifdef NANOLANG_VERIF
+    if (vm_verif_heap_cb) vm_verif_heap_cb(0, t, t->header.obj_type);
+#endif
     free(t);
 }
 
@@ -169,6 +188,9 @@ static void release_closure(VmHeap *heap, VmClosure *c) {
     size_t sz = sizeof(VmClosure) + c->capture_count * sizeof(NanoValue);
     heap->stats.freed += sz;
     heap->stats.num_objects--;
+#ifdef NANOLANG_VERIF
+    if (vm_verif_heap_cb) vm_verif_heap_cb(0, c, c->header.obj_type);
+#endif
     free(c);
 }
 
@@ -185,6 +207,9 @@ static void release_hashmap(VmHeap *heap, VmHashMap *m) {
     }
     heap->stats.freed += sizeof(VmHashMap) + m->bucket_count * sizeof(VmHMEntry *);
     heap->stats.num_objects--;
+#ifdef NANOLANG_VERIF
+    if (vm_verif_heap_cb) vm_verif_heap_cb(0, m, m->header.obj_type);
+#endif
     free(m->buckets);
     free(m);
 }
@@ -219,6 +244,9 @@ VmString *vm_string_new(VmHeap *heap, const char *data, uint32_t length) {
 
     heap->stats.allocated += sz;
     heap->stats.num_objects++;
+#ifdef NANOLANG_VERIF
+    if (vm_verif_heap_cb) vm_verif_heap_cb(1, s, s->header.obj_type);
+#endif
 
     /* Add to intern table */
     if (heap->intern_count >= heap->intern_capacity) {
@@ -322,6 +350,9 @@ VmArray *vm_array_new(VmHeap *heap, uint8_t elem_type, uint32_t initial_capacity
     a->elements = calloc(initial_capacity, sizeof(NanoValue));
     heap->stats.allocated += sizeof(VmArray) + initial_capacity * sizeof(NanoValue);
     heap->stats.num_objects++;
+#ifdef NANOLANG_VERIF
+    if (vm_verif_heap_cb) vm_verif_heap_cb(1, a, a->header.obj_type);
+#endif
     return a;
 }
 
@@ -396,6 +427,9 @@ VmStruct *vm_struct_new(VmHeap *heap, uint32_t def_idx, uint32_t field_count) {
     s->fields = calloc(field_count, sizeof(NanoValue));
     heap->stats.allocated += sizeof(VmStruct) + field_count * sizeof(NanoValue);
     heap->stats.num_objects++;
+#ifdef NANOLANG_VERIF
+    if (vm_verif_heap_cb) vm_verif_heap_cb(1, s, s->header.obj_type);
+#endif
     return s;
 }
 
@@ -414,6 +448,9 @@ VmUnion *vm_union_new(VmHeap *heap, uint32_t def_idx, uint16_t variant, uint16_t
     u->fields = calloc(field_count, sizeof(NanoValue));
     heap->stats.allocated += sizeof(VmUnion) + field_count * sizeof(NanoValue);
     heap->stats.num_objects++;
+#ifdef NANOLANG_VERIF
+    if (vm_verif_heap_cb) vm_verif_heap_cb(1, u, u->header.obj_type);
+#endif
     return u;
 }
 
@@ -430,6 +467,9 @@ VmTuple *vm_tuple_new(VmHeap *heap, uint32_t count) {
     t->count = count;
     heap->stats.allocated += sz;
     heap->stats.num_objects++;
+#ifdef NANOLANG_VERIF
+    if (vm_verif_heap_cb) vm_verif_heap_cb(1, t, t->header.obj_type);
+#endif
     return t;
 }
 
@@ -447,6 +487,9 @@ VmClosure *vm_closure_new(VmHeap *heap, uint32_t fn_idx, uint16_t capture_count)
     c->capture_count = capture_count;
     heap->stats.allocated += sz;
     heap->stats.num_objects++;
+#ifdef NANOLANG_VERIF
+    if (vm_verif_heap_cb) vm_verif_heap_cb(1, c, c->header.obj_type);
+#endif
     return c;
 }
 
@@ -479,6 +522,9 @@ VmHashMap *vm_hashmap_new(VmHeap *heap, uint8_t key_type, uint8_t val_type) {
     m->buckets = calloc(HM_INITIAL_BUCKETS, sizeof(VmHMEntry *));
     heap->stats.allocated += sizeof(VmHashMap) + HM_INITIAL_BUCKETS * sizeof(VmHMEntry *);
     heap->stats.num_objects++;
+#ifdef NANOLANG_VERIF
+    if (vm_verif_heap_cb) vm_verif_heap_cb(1, m, m->header.obj_type);
+#endif
     return m;
 }
 
